@@ -157,8 +157,9 @@ def h_py_expr(kind: int, i: int, j: int, wrap: int) -> bool:
     inside the dict/list shapes ChangeMeta uses.
 
     kind 0 F, 1 Value(int), 2 Value(str), 3 F + Value, 4 F * F, 5 Deferrable, 6 UniqueConstraint,
-         7 Index with condition Q, 8 (F - Value) + F
-    pre: 0 <= kind <= 8 and 0 <= i <= 9 and 0 <= j <= 3 and 0 <= wrap <= 2
+         7 Index with condition Q, 8 (F - Value) + F, 9 (F + Value) * Value, 10 Value - (F - F),
+         11 set of ints (0-2 elements)
+    pre: 0 <= kind <= 11 and 0 <= i <= 9 and 0 <= j <= 3 and 0 <= wrap <= 2
     pre: kind == 2 or i <= 3
     pre: hx.in_part(kind)
     pre: not hx.excluded(kind, i, j, wrap)
@@ -181,8 +182,15 @@ def h_py_expr(kind: int, i: int, j: int, wrap: int) -> bool:
         v = models.UniqueConstraint(fields=(name, 'z'), name=hx.pick(['uc_0', 'uc_1', 'uc_2', 'uc_3'], i))
     elif kind == 7:
         v = models.Index(fields=[name], name='ix', condition=Q(**{name + '__gt': hx.pick(INTS, i)}))
-    else:
+    elif kind == 8:
         v = (F(name) - Value(hx.pick(INTS, i))) + F('other')
+    elif kind == 9:
+        v = (F(name) + Value(hx.pick(INTS, i))) * Value(2)
+    elif kind == 10:
+        v = Value(hx.pick(INTS, i)) - (F(name) - F('other'))
+    else:
+        with hx.NoTracing():
+            v = set([7, -1][:hx.realize(i) % 3])
     if wrap == 1:
         v = [{'name': 'n', 'value': v}]
     elif wrap == 2:
@@ -199,6 +207,8 @@ def _expr_eq(a, b):
         return type(a) is type(b) and len(a) == len(b) and all(_expr_eq(x, y) for x, y in zip(a, b))
     if isinstance(b, dict):
         return isinstance(a, dict) and set(a) == set(b) and all(_expr_eq(a[k], b[k]) for k in b)
+    if isinstance(b, (set, frozenset)):
+        return type(a) is type(b) and a == b
     if hasattr(b, 'deconstruct') and not isinstance(b, type):
         return type(a) is type(b) and _decon(a) == _decon(b)
     return a == b and type(a) is type(b)
